@@ -60,11 +60,8 @@ def lattice_part(tier, rep, cov):
     pairs = r.json_payloads("REPLAY")
     values = r.json_payloads("VALUES")[0]
     wd = C.workdir("c11_lat")
-    cp = os.path.join(wd, "pairs.ndjson")
-    C.write_ndjson(cp, [{"values": values, "n": n}] + pairs)
-    op = os.path.join(wd, "obs.ndjson")
-    C.qv(["dt-lattice"], stdin_path=cp, stdout_path=op, timeout=6000)
-    obs = C.read_ndjson(op)
+    # (sharded: every shard also reports the "own type" records of the values, which are judged once per shard)
+    obs = C.qv_sharded(["dt-lattice"], {"values": values, "n": n}, pairs, wd, shards=12, timeout=6000, case_field="__none__")
     trace = [{"op": "values", "values": values}] + obs
     tp = os.path.join(wd, "trace.ndjson")
     C.write_ndjson(tp, trace)
